@@ -18,7 +18,7 @@ let c08 args =
       let o = parse_leaf tstr t it in
       L [ str_to_atom (Model.leaf_ident it);
           of_bool (Model.item_unsupported uc tstr t it);
-          of_opt (fun c -> A (coqstring c)) (Model.known_C08 t it);
+          of_opt (fun c -> A (coqstring c)) (Model.known_C08 it);
           A (match o with Model.Ok _ -> "ok" | Model.Err _ -> "err" | Model.Panic _ -> "panic") ])
       (Model.expected_leaves t f)
   | _ -> raise (Bad "c08 args")
